@@ -1325,6 +1325,19 @@ theorem change_forward_call_checked (pre : Predef) (fuel : Nat) (env : Env V) (o
           forward_call_checked ⟨env, ops, mod, body mod.name⟩ fuel p.attr v call h
         exact ⟨m, a, mod, p, v, rfl, hl, hro, hc, hacc, b, u, q, w', hr, hb, hv, hq, hw', hcall⟩
 
+/-- the monitor refuses only what the statement refuses: a `refuse` of the decision list `pathVerdict` (any depth bound)
+means that some parameter of the write path does object (`¬ PathOK`) -/
+theorem pathVerdict_refuse_sound (c : Ctx J V) (fuel : Nat) (a : String) (v : V) (cls : ErrCls)
+    (h : pathVerdict fuel c a v = .refuse cls) : ¬ PathOK c a v := by
+  intro hp
+  unfold pathVerdict at h
+  cases hf : (pathList fuel c a v).findSome? (fun av => visitVerdict c av.1 av.2) with
+  | none => simp [hf] at h
+  | some cls' =>
+    obtain ⟨av, hav, hv⟩ := List.exists_of_findSome?_eq_some hf
+    have hok := (visitVerdict_none_iff c av.1 av.2).2 (hp _ _ (mem_pathList_reach c fuel a v av hav))
+    rw [hok] at hv; cases hv
+
 /-- the all-or-nothing reading for EVERY forwarding structure (StructParam in member layout included): does NOT hold
 for the code as it is (`forward_members_counterexample`); `forward_calls_only_if_path_ok` is the part that holds
 (hypothesis `Linear`), `forward_call_checked` what holds without it (each driver method behind its own checks) -/
@@ -1414,6 +1427,10 @@ example : ∃ cur, attrValue cA.mod "ctrl" = some cur ∧ VisitOK cA "ctrl" (cA.
     exact (Except.ok.inj hw).symm
   subst this
   exact ⟨cur, hcur, hv⟩
+
+open ForwardExample in
+/-- `pathVerdict_refuse_sound` is not vacuous: the monitor refuses the seeded situation with RangeError -/
+example : pathVerdict 4 cA "pid_p" 50 = .refuse .rangeError := by decide +kernel
 
 open ForwardExample in
 /-- `forward_rejected_is_inert` on the refused request: the path is not OK, so nothing is called -/
